@@ -131,6 +131,23 @@ func goRun(dir string, timeout time.Duration, name string, args ...string) (stri
 	return buf.String(), 0, false
 }
 
+// goBuild runs `go build`; a failure without a single source diagnostic (`file.go:line:`) is the toolchain's own
+// (the shared build cache was trimmed under the linker's feet by another worker: "cannot open file …/gocache/…"):
+// it is retried, never reported as a property of the generated code.
+func goBuild(dir string, timeout time.Duration, args ...string) (string, int, bool) {
+	var out string
+	var rc int
+	var to bool
+	for attempt := 0; attempt < 3; attempt++ {
+		out, rc, to = goRun(dir, timeout, "go", args...)
+		if rc == 0 || to || regexp.MustCompile(`(?m)\.go:\d+:`).MatchString(out) {
+			break
+		}
+		time.Sleep(2 * time.Second)
+	}
+	return out, rc, to
+}
+
 func main() {
 	c := hx.ParseFlags()
 	o, err := hx.NewOut(c.OutDir)
@@ -256,6 +273,8 @@ func main() {
 	phase("matrix emitted")
 	emitSplit(o, gen, rng, c.Thorough())
 	phase("splitter correspondence")
+	emitTerm(o, tmp, gen, rng, c.Thorough())
+	phase("termination cases")
 	runWide(o, tmp, gen, rng, c.Thorough())
 	phase("wide programs")
 	if err := o.Close(nil); err != nil {
@@ -650,7 +669,7 @@ func runLayoutB(tmp, gen, dir string, cells []*cell) {
 	rb.WriteString("}\n")
 	os.WriteFile(filepath.Join(dir, "runner.go"), []byte(rb.String()), 0o644)
 	bin := filepath.Join(tmp, "runnerB")
-	if out, rc, _ := goRun(tmp, 30*time.Minute, "go", "build", "-trimpath", "-o", bin, "./b"); rc != 0 {
+	if out, rc, _ := goBuild(tmp, 30*time.Minute, "build", "-trimpath", "-o", bin, "./b"); rc != 0 {
 		die("layout B (only cells that type-check one by one) does not build:\n%s", firstN(out, 3000))
 	}
 	out, rc, _ := goRun(tmp, 10*time.Minute, bin)
@@ -856,7 +875,7 @@ func main() {
 	os.WriteFile(filepath.Join(dir, "cells.go"), []byte(sb.String()), 0o644)
 	os.WriteFile(filepath.Join(dir, "runner.go"), []byte(rb.String()), 0o644)
 	bin := filepath.Join(tmp, "runnerS")
-	if out, rc, _ := goRun(tmp, 30*time.Minute, "go", "build", "-trimpath", "-o", bin, "./s"); rc != 0 {
+	if out, rc, _ := goBuild(tmp, 30*time.Minute, "build", "-trimpath", "-o", bin, "./s"); rc != 0 {
 		die("sampled layout A cells (each type-checks) do not build:\n%s", firstN(out, 3000))
 	}
 	out, rc, _ := goRun(tmp, 10*time.Minute, bin)
